@@ -1010,7 +1010,7 @@ func lFixHops(n *lNode, next *int) {
 
 // bigCase: more tags than the default page size, listed with the default page size.
 func bigCase(count, page int, link bool) *lCase {
-	c := &lCase{Src: "big", Kind: "tags", K: 0}
+	c := &lCase{Src: "big", Kind: "tags", K: 0, Passes: []int{0}}
 	s := []int{}
 	for i := 0; i < count; i++ {
 		c.Univ = append(c.Univ, fmt.Sprintf("t%05d", i))
@@ -1065,22 +1065,26 @@ func listCmd(args []string) error {
 	}
 	if *replay != "" {
 		err := readLines(*replay, func(line []byte) error {
-			var c struct {
-				Op string `json:"op"`
-				lCase
+			var head struct {
+				Op  string `json:"op"`
+				Src string `json:"src"`
 			}
-			if err := json.Unmarshal(line, &c); err != nil {
+			if err := json.Unmarshal(line, &head); err != nil {
 				return err
 			}
-			if c.Op == "biglist" || c.Op == "panic" && c.Src == "big" {
+			if head.Op == "biglist" || head.Op == "panic" && head.Src == "big" {
 				var b lBigCase
 				if err := json.Unmarshal(line, &b); err != nil {
 					return err
 				}
 				return lr.runBig(b.Kind, b.M, nil, &b)
 			}
-			if c.Op != "list" && c.Op != "panic" {
+			if head.Op != "list" && head.Op != "panic" {
 				return nil
+			}
+			var c struct{ lCase }
+			if err := json.Unmarshal(line, &c); err != nil {
+				return err
 			}
 			c.Src = "replay"
 			return lr.run(&c.lCase)
